@@ -45,7 +45,7 @@ Definition doc_sites : list site := [
     NotHash;
   (* IR::Blob fields is a Vec *)
   mkSite "sylt-compiler/src/lua.rs" "generate" "fields"
-    "fields .iter() .map(|(f, v)| format!('', f, self.expand(v))) .collect::<Vec<_>>() .join('') )"
+    "fields .iter() .map(|(f, v)| format!('', lua_key(f), self.expand(v))) .collect::<Vec<_>>() .join('') )"
     NotHash;
   (* inverts a map into a map *)
   mkSite "sylt-compiler/src/name_resolution.rs" "new" "namespace_to_file"
